@@ -394,6 +394,14 @@ class ZIPHandler(BaseHandler):
             if pattern.search(basename) and self.vfs.isfile(basename):
                 # is_zipfile() accepts filenames as bytes, but the type stub is incorrect
                 if zipfile.is_zipfile(self.vfs.getfspath(basename)):  # noqa
+                    # is_zipfile() only looks for the end-of-archive record.
+                    # An archive that cannot be opened and indexed (damaged
+                    # central directory, members we cannot digest) is served
+                    # as the plain file it is.
+                    try:
+                        self.zipvfs = VFSZip(self.config, self.vfs, basename)
+                    except Exception:
+                        return False
                     self.basename = basename
                     self.appendage = appendage
                     return True
@@ -419,7 +427,7 @@ class ZIPHandler(BaseHandler):
 
         if hasattr(self, "handler"):
             return
-        vfs = VFSZip(self.config, self.vfs, self.basename)
+        vfs = self.zipvfs
 
         self.handler = HandlerMultiplexer.getHandler(
             self.getselector(), self.searchrequest, self.protocol, self.config, vfs=vfs
